@@ -188,11 +188,57 @@ CLAIMED = {
 
 _NOT_BUILT = "claimed in DESIGN.md but the check is not built yet in this round"
 
+CLAIMED.update({
+    "C01": {
+        "category": "other",
+        "technique": "static analysis: derived-field dependency table and refresh obligation per base-field writer of Stream, linear-form check of the shift direction, "
+                     "context-sensitive two-point temperature-scale typing of both problem tables, same-source rule for the two ends of the cascade column, "
+                     "and the repository-wide disciplines over the anchored modules (TRUTHY: no temperature/duty tested by truthiness; MEMO-KEY/MEMO-DEP; ARG-TYPE)",
+        "text": "Decides structural necessary conditions of C01, for every input because each is a fact about every path of the code: every writer of a stream's base "
+                "fields refreshes its shifted bounds, which move down for hot and up for cold streams; the shifted table is only ever built from shifted bounds and the real "
+                "table from real bounds; Qh and Qc are the first and last row of one cascade column; a stream or utility at 0 degC or with a zero duty is not dropped as 'missing'.",
+        "design_ref": "DESIGN.md 3.3 C01",
+        "note": "PART of the property only. The equality of the reported targets with an exact cascade (interval-activity window, 6-decimal rounding, cumulative sums, "
+                "min(H_net)=0 shift) is arithmetic and NOT decided; a changed tolerance, comparison side or formula in the cascade is not detected.",
+    },
+    "C04": {
+        "category": "other",
+        "technique": "static analysis: interprocedural witness-value analysis of the per-side segment start (no negative wrap-around), booking rule of the allocator "
+                     "(every assigned duty added to the running total the early exit tests), zero-seeded utilities and producer/consumer filter agreement of the default-utility "
+                     "decision, row-index / column-view typestate across row insertion in the pocket sweep that produces the allocator's input; TRUTHY, MEMO-*, ARG-TYPE over the anchored modules",
+        "text": "Decides bookkeeping necessary conditions of C04 on every path: the segment of the pocket-free curve handed to the allocator cannot wrap to the other end of the "
+                "table; every duty the allocator assigns is counted; no utility enters the allocation carrying a duty; the pocket-free curve is built with row indices and column "
+                "views that are re-based after every row insertion.",
+        "design_ref": "DESIGN.md 3.3 C04",
+        "note": "PART of the property only. Feasibility (utility GCC between zero and the pocket-free GCC), the slope/supply-limited bounds, the ordering of the utility ladder "
+                "and optimality of each duty are inequalities over computed arrays and NOT decided.",
+    },
+    "C12": {
+        "category": "other",
+        "technique": "static analysis: taint of input stream records into every keep-one-per-key construct (identity keys only), who-may-store rule on the collection's member map, "
+                     "dirty-flag sort-cache dataflow (iteration is sorted on every path), witness-value wrap analysis of the side-specific segment selection, mirrored-branch "
+                     "comparison of the pocket sweep, TRUTHY / MEMO-* / ARG-TYPE over the anchored modules",
+        "text": "Decides structural necessary conditions of C12: parallel branches and split streams (distinct records with equal labels) are never merged; a temperature that a "
+                "uniform translation puts on 0 is not read as missing; neither side's segment selection wraps (the mirror image of a problem takes the other side's code path); "
+                "the two direction branches of the pocket sweep are mirror images; collections iterate in sorted order whatever the insertion order.",
+        "design_ref": "DESIGN.md 3.3 C12",
+        "note": "PART of the property only. The relation between two runs on transformed inputs is decided at run time by absolute tolerances, sort stability for equal keys "
+                "and floating-point summation order; none of that is decided here.",
+    },
+    "C15": {
+        "category": "other",
+        "technique": "static analysis: column must-write-before-read summaries on every option path into the area routines (context-sensitive on option flags), dominance of a "
+                     "raising guard before the LMTD logarithm, module-state write scan and cache-key completeness of the cost / exchanger helpers, strict division guards; "
+                     "TRUTHY / MEMO-* / ARG-TYPE over the anchored modules",
+        "text": "Decides structural necessary conditions of C15: whenever area targeting runs, every balanced-curve and resistance column it reads was written on that option "
+                "path; the LMTD helper raises for non-positive end differences instead of returning a negative or complex value; cost and exchanger helpers are free of "
+                "module-level memo state (a result cannot depend on an earlier call).",
+        "design_ref": "DESIGN.md 3.3 C15",
+        "note": "PART of the property only. The area integral, plateau handling, the cost law and the annualisation factor are arithmetic and NOT decided.",
+    },
+})
+
 NOT_APPLICABLE = {
-    "C01": "numerical identity (1e-6) between reported targets and an exact cascade over all stream sets; arithmetic, not code shape - no sound static argument in reach",
-    "C04": "feasibility/optimality of utility profiles are inequalities over computed arrays with an LP as oracle; runtime quantities",
-    "C12": "metamorphic relation between two runs on transformed inputs; decided by absolute tolerances and sort stability at run time",
-    "C15": "area/cost values are integrals over interleaved breakpoints and closed-form cost laws; checking them statically would be formula matching",
 }
 for _p in ["C02", "C03", "C05", "C06", "C07", "C08", "C09", "C10", "C11", "C13", "C14", "C16", "C17", "C18", "C19"]:
     NOT_APPLICABLE.setdefault(_p, _NOT_BUILT)
